@@ -27,34 +27,38 @@ fn grown(pre: usize, init: &[u8; 96]) -> Memory {
     m.grow(pre);
     assert!(m.len() == pre);
     let mut i = 0;
-    while i < 96 {
-        if i < pre {
-            m[i] = init[i];
-        }
+    while i < pre {
+        m[i] = init[i];
         i += 1;
     }
     m
 }
 
-/// Fully symbolic 256-bit offset and size on a 96-byte memory with symbolic contents: every
-/// rejection path, the empty region, and every accepted region that needs no growth.
+/// ALL 2^512 (offset, size) pairs that must NOT yield a region: size == 0 -> Ok(None) whatever
+/// the offset; size >= 2^32 / offset >= 2^32 / offset + size > u32::MAX -> exit code 38.  In both
+/// situations memory must not be expanded.  The memory is the empty `Memory::default()` here:
+/// a pre-grown memory needs the `Vec::resize` loop unwound >= 32 times, and with that unwind
+/// the (unreachable, but encoded) `mem.grow(<symbolic>)` of the accepted path does not finish
+/// (> 7 min, see NOTES.md); contents-unchanged on a dirty memory is checked for concrete
+/// representatives of every class in c18_get_memory_region_grow.
+/// unwind 6: the only loops reached are the 4-limb loops of `U256 -> u32` (`fits_word`); the
+/// unwinding assertions of the `resize` loop hold because no rejected pair reaches it.
 #[kani::proof]
-#[kani::unwind(100)]
+#[kani::unwind(6)]
 fn c18_get_memory_region() {
-    let init: [u8; 96] = kani::any();
-    let mut mem = grown(96, &init);
+    let mut mem = Memory::default();
     let offset = any_u256();
     let size = any_u256();
 
     let size_zero = size.0[0] == 0 && size.0[1] == 0 && size.0[2] == 0 && size.0[3] == 0;
     let sum_ok = fits_u32(&offset) && fits_u32(&size) && offset.0[0] + size.0[0] <= 0xFFFF_FFFF;
     let reject = !size_zero && !sum_ok;
-    // accepted regions that would GROW memory are enumerated in c18_get_memory_region_grow
-    if size_zero || reject || offset.0[0] + size.0[0] <= 96 {
+    // accepted regions (they grow memory) are enumerated in c18_get_memory_region_grow
+    if size_zero || reject {
         let r = get_memory_region(&mut mem, offset, size);
         if size_zero {
             assert!(matches!(r, Ok(None)));
-        } else if reject {
+        } else {
             match &r {
                 Err(e) => {
                     assert!(e.exit_code().value() == 38);
@@ -62,35 +66,45 @@ fn c18_get_memory_region() {
                 }
                 _ => assert!(false),
             }
-        } else {
-            match &r {
-                Ok(Some(reg)) => {
-                    assert!(reg.offset as u64 == offset.0[0]);
-                    assert!(reg.size.get() as u64 == size.0[0]);
-                }
-                _ => assert!(false),
-            }
         }
-        // memory untouched in all three situations
-        assert!(mem.len() == 96);
-        let q: usize = kani::any();
-        if q < 96 {
-            assert!(mem[q] == init[q]);
-        }
-        kani::cover!(size_zero && offset.0[3] != 0 && q < 96 && init[q] == 0xAA);
+        assert!(mem.len() == 0);
+        kani::cover!(size_zero && offset.0[3] != 0);
+        kani::cover!(size_zero && fits_u32(&offset) && offset.0[0] == 5);
         kani::cover!(reject && !fits_u32(&size) && fits_u32(&offset));
         kani::cover!(reject && size.0[0] == 1 << 32 && size.0[1] == 0 && size.0[2] == 0 && size.0[3] == 0);
         kani::cover!(reject && fits_u32(&size) && !fits_u32(&offset));
         kani::cover!(reject && fits_u32(&size) && offset.0[0] == 1 << 32 && offset.0[1] == 0 && offset.0[2] == 0 && offset.0[3] == 0);
         kani::cover!(reject && fits_u32(&size) && fits_u32(&offset) && offset.0[0] + size.0[0] == 1 << 32);
         kani::cover!(reject && size.0[0] == 0 && size.0[3] == 1); // low limb zero, not an empty region
-        kani::cover!(!size_zero && !reject && offset.0[0] + size.0[0] == 96 && size.0[0] == 1);
-        kani::cover!(!size_zero && !reject && offset.0[0] == 0 && size.0[0] == 96);
+        kani::cover!(reject && size.0[0] == 1 && offset.0[0] == 0 && offset.0[1] == 1); // low limb of the offset zero
     }
 }
 
-/// The last accepted pair before the u32 limit (offset + size == u32::MAX) cannot be executed
-/// (it would grow memory to 4 GiB); accepted pairs that grow memory are enumerated here.
+/// A concrete (offset, size) that must not yield a region, on a 32-byte memory with symbolic
+/// contents: length and every byte unchanged.
+fn untouched_case(offset: U256, size: U256, empty: bool) {
+    let init: [u8; 96] = kani::any();
+    let mut mem = grown(32, &init);
+    let r = get_memory_region(&mut mem, offset, size);
+    if empty {
+        assert!(matches!(r, Ok(None)));
+    } else {
+        match &r {
+            Err(e) => assert!(e.exit_code().value() == 38),
+            _ => assert!(false),
+        }
+    }
+    assert!(mem.len() == 32);
+    let q: usize = kani::any();
+    if q < 32 {
+        assert!(mem[q] == init[q]);
+        kani::cover!(init[q] == 0xAA && empty);
+        kani::cover!(init[q] == 0xAA && !empty);
+    }
+}
+
+/// Accepted pairs are enumerated (offset + size <= 96): the largest accepted pair
+/// (offset + size == u32::MAX) cannot be executed, it grows memory to 4 GiB.
 fn grow_case(pre: usize, offset: usize, size: usize) {
     let init: [u8; 96] = kani::any();
     let mut mem = grown(pre, &init);
@@ -133,5 +147,14 @@ fn c18_get_memory_region_grow() {
         grow_case(cases[c].0, cases[c].1, cases[c].2);
         c += 1;
     }
+    // no region, dirty memory: one representative per class
+    let m32 = 0xFFFF_FFFFu64;
+    untouched_case(U256([u64::MAX; 4]), U256::zero(), true); // empty region at offset 2^256-1
+    untouched_case(U256::zero(), U256([m32 + 1, 0, 0, 0]), false); // size 2^32
+    untouched_case(U256::zero(), U256([1, 0, 0, 1]), false); // size 2^192+1 (low limbs small)
+    untouched_case(U256([m32 + 1, 0, 0, 0]), U256::from(1u64), false); // offset 2^32
+    untouched_case(U256([0, 1, 0, 0]), U256::from(1u64), false); // offset 2^64 (low limb 0)
+    untouched_case(U256([m32, 0, 0, 0]), U256::from(1u64), false); // offset + size = 2^32
+    untouched_case(U256([m32 - 7, 0, 0, 0]), U256::from(40u64), false);
     kani::cover!(c == 8);
 }
